@@ -70,4 +70,27 @@ theorem shares_le_of_ratios (a W : Nat) (ws : List Nat) (h : (ws.map (fun w => r
   rw [Nat.mul_comm decPN a]
   exact Nat.mul_le_mul_left a h
 
+
+/-- the repaired formula (multiply before dividing, on math.Int): ⌊a·w/W⌋ -/
+def fixedShare (a w W : Nat) : Nat := a * w / W
+
+theorem fixedShare_sum_le (a W : Nat) (ws : List Nat) (h : ws.sum ≤ W) :
+    (ws.map (fun w => fixedShare a w W)).sum ≤ a := by
+  have h1 : (ws.map (fun w => fixedShare a w W)).sum ≤ a * ws.sum / W := by
+    induction ws with
+    | nil => simp
+    | cons w rest ih =>
+      have hr : rest.sum ≤ W := by simp only [List.sum_cons] at h; omega
+      have := ih hr
+      rw [List.map_cons, List.sum_cons, List.sum_cons, Nat.mul_add]
+      have := div_add_div_le (a * w) (a * rest.sum) W
+      unfold fixedShare at *
+      omega
+  refine Nat.le_trans h1 ?_
+  rcases Nat.eq_zero_or_pos W with h0 | h0
+  · subst h0; simp
+  · apply Nat.div_le_of_le_mul
+    rw [Nat.mul_comm W a]
+    exact Nat.mul_le_mul_left a h
+
 end DymVerif.Incent
